@@ -56,17 +56,21 @@ Definition s_all (xs : list sout) (mk : list json -> json) : sout :=
                so_caught := flat_map so_caught xs; so_nulls := [] |}
   end.
 
-(** ** CollectFields (6.3.2) *)
+(** ** CollectFields (6.3.2)
+
+    The specification fills an ordered map "ordered by which fields appear first in the query".
+    Said without the map: the selected field nodes in document order after fragment expansion and
+    @skip/@include ([s_collect_flat]), grouped by response key in order of first appearance
+    ([s_group]). *)
 Definition sgroups := list (name * list fnode).        (* ordered map: response key -> fields *)
 
-Fixpoint sg_add (k : name) (fs : list fnode) (g : sgroups) : sgroups :=
+Fixpoint sg_add (k : name) (f : fnode) (g : sgroups) : sgroups :=
   match g with
-  | [] => [(k, fs)]
-  | (k', fs') :: r => if name_eqb k k' then (k', fs' ++ fs) :: r else (k', fs') :: sg_add k fs r
+  | [] => [(k, [f])]
+  | (k', fs) :: r => if name_eqb k k' then (k', fs ++ [f]) :: r else (k', fs) :: sg_add k f r
   end.
-(** "for each fragmentGroup in fragmentGroupedFieldSet: append all items to groupForResponseKey" *)
-Definition sg_merge (g sub : sgroups) : sgroups :=
-  fold_left (fun acc kf => sg_add (fst kf) (snd kf) acc) sub g.
+Definition s_group (flat : list (name * fnode)) : sgroups :=
+  fold_left (fun acc kf => sg_add (fst kf) (snd kf) acc) flat [].
 
 Definition s_cond (E : env) (c : cond) : option bool :=
   match c with CLit b => Some b | CVar v => assoc v E end.
@@ -98,44 +102,52 @@ Definition s_fragment (D : document) (n : name) : option fragdef :=
 Section SpecCollect.
   Variables (S : schema) (D : document) (E : env).
 
-  (** CollectFields(objectType, selectionSet, variableValues, visitedFragments): [groups] is the
-      ordered map being filled for this selection set; a fragment's selection set is collected on
-      its own (an empty map) and its groups are then appended, group by group.  Returns the
-      updated visitedFragments and the map; [None]: out of fuel. *)
-  Fixpoint s_collect (fuel : nat) (ot : name) {struct fuel}
-    : list selection -> list name -> sgroups -> option (list name * sgroups) :=
-    fix go (sels : list selection) (visited : list name) (groups : sgroups) {struct sels}
-      : option (list name * sgroups) :=
+  (** the field nodes [sels] selects for an object of type [ot], with their response keys, in
+      document order; visitedFragments is threaded as in the specification.  [None]: out of fuel *)
+  Fixpoint s_collect_flat (fuel : nat) (ot : name) {struct fuel}
+    : list selection -> list name -> option (list name * list (name * fnode)) :=
+    fix go (sels : list selection) (visited : list name) {struct sels}
+      : option (list name * list (name * fnode)) :=
       match sels with
-      | [] => Some (visited, groups)
+      | [] => Some (visited, [])
       | s :: rest =>
+          let then_rest (visited' : list name) (here : list (name * fnode)) :=
+            match go rest visited' with
+            | Some (v, l) => Some (v, here ++ l)
+            | None => None
+            end in
           let fragment (sub : list selection) (visited' : list name) :=
             match fuel with
             | O => None
             | Datatypes.S fuel' =>
-                match s_collect fuel' ot sub visited' [] with
-                | Some (v, g) => go rest v (sg_merge groups g)
+                match s_collect_flat fuel' ot sub visited' with
+                | Some (v, l) => then_rest v l
                 | None => None
                 end
             end in
-          if s_excluded E (sel_dirs s) then go rest visited groups
+          if s_excluded E (sel_dirs s) then go rest visited
           else match s with
                | SField a n p _ sub =>
-                   go rest visited
-                      (sg_add (match a with Some k => k | None => n end)
-                              [ {| fn_name := n; fn_pos := p; fn_sub := sub |} ] groups)
+                   then_rest visited [(match a with Some k => k | None => n end,
+                                       {| fn_name := n; fn_pos := p; fn_sub := sub |})]
                | SSpread n _ _ =>
-                   if mem n visited then go rest visited groups
+                   if mem n visited then go rest visited
                    else match s_fragment D n with
-                        | None => go rest (n :: visited) groups
+                        | None => go rest (n :: visited)
                         | Some f => if s_applies S ot (fr_cond f) then fragment (fr_sels f) (n :: visited)
-                                    else go rest (n :: visited) groups
+                                    else go rest (n :: visited)
                         end
                | SInline None _ _ sub => fragment sub visited
                | SInline (Some c) _ _ sub =>
-                   if s_applies S ot c then fragment sub visited else go rest visited groups
+                   if s_applies S ot c then fragment sub visited else go rest visited
                end
       end.
+
+  Definition s_collect (fuel : nat) (ot : name) (sels : list selection) : option sgroups :=
+    match s_collect_flat fuel ot sels [] with
+    | Some (_, flat) => Some (s_group flat)
+    | None => None
+    end.
 End SpecCollect.
 
 (** ** completed values *)
@@ -194,9 +206,9 @@ Section SpecExec.
   (** ExecuteSelectionSet *)
   Definition s_selection_set (children : name -> scompleter) (ot : name) (sels : list selection)
              (path : rpath) : sout :=
-    match s_collect S D E fuel ot sels [] [] with
+    match s_collect S D E fuel ot sels with
     | None => {| so_val := None; so_thrown := []; so_caught := []; so_nulls := [] |}   (* out of fuel *)
-    | Some (_, groups) =>
+    | Some groups =>
         let entries :=
           flat_map (fun kf =>
                       let key := fst kf in
@@ -337,9 +349,9 @@ Section DocOk.
     match n with
     | O => false
     | Datatypes.S n' =>
-        match s_collect S D E fuel ot sels [] [] with
+        match s_collect S D E fuel ot sels with
         | None => false
-        | Some (_, groups) =>
+        | Some groups =>
             forallb (fun kf =>
                        match snd kf with
                        | [] => false
